@@ -13,3 +13,4 @@ import FuraxProofs.Props.C19
 #print axioms Furax.C19.jit_uses_creation_config
 #print axioms Furax.C19.jit_history_uses_creation_configs
 #print axioms Furax.C19.jit_with_forgetful_key_reuses_wrong_trace
+#print axioms Furax.C19.prebuilt_config_installs_construction_settings
